@@ -410,6 +410,55 @@ def _kernels(chk, only=None):
                                                      RK + ":rk_embedded_step_jit_kernel"], "B3 sympy normal form",
             th_driver)
 
+    def th_systems_in_a_row(make, cls_name, drv):
+        # one integrator object, several systems in a row (with and without an event): the driver integrates THIS call's field
+        def run_():
+            from hiten.algorithms.types.configs import EventConfig
+            inst = make()
+            C = getattr(rk, cls_name)
+            seen = []
+
+            def fake(*a, **kw):
+                seen.append(a[0] if a else kw.get("f"))
+                raise _Captured()
+            names = [n for n in (drv, drv + "_until_event") if hasattr(C, n)]
+            saved = {n: getattr(C, n) for n in names}
+            for n in names:
+                setattr(C, n, staticmethod(fake))
+            try:
+                for c in (2.0, 3.0, 5.0):
+                    for with_event in (False, True):
+                        class Sys:
+                            dim = 2
+
+                            def rhs(self, t, y, c=c):
+                                return c * y
+                        seen.clear()
+                        kw = dict(event_fn=lambda t, y: y[0] - 10.0, event_cfg=EventConfig(direction=0, terminal=True)) if with_event else {}
+                        try:
+                            inst.integrate(Sys(), _np.array([1.0, 2.0]), _np.array([0.0, 0.5, 1.0]), **kw)
+                        except _Captured:
+                            pass
+                        if not seen or not callable(seen[0]):
+                            raise symx.Undecided(f"contract not anchored: {cls_name}.integrate did not reach {names} with the field first")
+                        got = _np.asarray(seen[0](0.0, _np.array([1.0, -2.0])), float).tolist()
+                        if got != [c, -2.0 * c]:
+                            raise Refuted(f"{cls_name}.integrate: the driver integrates another system's field",
+                                          f"systems y' = 2y, 3y, 5y in a row on one integrator object: for y' = {c}y "
+                                          f"(event: {with_event}) the field handed to the driver evaluates to {got} at y = [1, -2]",
+                                          inputs={"systems": [2.0, 3.0, 5.0]})
+            finally:
+                for n, v in saved.items():
+                    setattr(C, n, v)
+        return run_
+    for label, make, cls_name, drv in (("FixedRK(4)", lambda: rk.FixedRK(order=4), "_FixedStepRK", "_integrate_fixed_rk"),
+                                       ("AdaptiveRK(5)", lambda: rk.AdaptiveRK(order=5), "_RK45", "_integrate_rk45"),
+                                       ("AdaptiveRK(8)", lambda: rk.AdaptiveRK(order=8), "_DOP853", "_integrate_dop853")):
+        obl(f"{label}.integrate: three systems in a row on one integrator object (with and without an event) - the driver "
+            f"receives the field of the system of THIS call", "K2 wiring (closed history)",
+            [RK + f":{cls_name}.integrate", RK + ":_RungeKuttaBase._build_rhs_wrapper"], "B4 exact evaluation",
+            th_systems_in_a_row(make, cls_name, drv))
+
     def th_integrate_wiring():
         # _FixedStepRK.integrate hands its own tableau and the caller's grid to the driver
         inst = rk.FixedRK(order=6)
